@@ -445,6 +445,18 @@ class X86_64Arch(Architecture):
                 elif isinstance(arg, registers.Register32):
                     yield bits32.MovRegRm(arg, RmMemDisp(rbp, arg_loc.offset))
                     stack_offset += arg_loc.size
+                elif isinstance(arg, registers.Register16):
+                    # Load the stack slot and extract the short part:
+                    yield bits64.MovRegRm(rax, RmMemDisp(rbp, arg_loc.offset))
+                    yield RegisterUseDef(uses=(rax,), defs=(registers.ax,))
+                    yield self.move(arg, registers.ax)
+                    stack_offset += arg_loc.size
+                elif isinstance(arg, registers.Register8):
+                    # Load the stack slot and extract the character part:
+                    yield bits64.MovRegRm(rax, RmMemDisp(rbp, arg_loc.offset))
+                    yield RegisterUseDef(uses=(rax,), defs=(al,))
+                    yield self.move(arg, al)
+                    stack_offset += arg_loc.size
                 elif isinstance(arg, StackLocation):
                     # Store memcpy action for later:
                     # cps.append((arg.offset, stack_offset, arg.size))
